@@ -20,11 +20,13 @@ use std::sync::Arc;
 use futures_util::StreamExt;
 use hickory_net::xfer::Protocol;
 use hickory_net::BufDnsStreamHandle;
-use hickory_proto::dnssec::rdata::{DNSSECRData, DS};
-use hickory_proto::dnssec::{Algorithm, DigestType};
+use hickory_proto::dnssec::crypto::Ed25519SigningKey;
+use hickory_proto::dnssec::rdata::{DNSSECRData, DNSKEY, DS};
+use hickory_proto::dnssec::{Algorithm, DigestType, DnssecSigner, Nsec3HashAlgorithm, SigningKey};
 use hickory_proto::op::{Message, SerialMessage};
 use hickory_proto::rr::rdata::{A, AAAA, CNAME, MX, NS, SOA, TXT};
 use hickory_proto::rr::{LowerName, Name, RData, Record};
+use hickory_server::dnssec::NxProofKind;
 use hickory_server::server::VerifContext;
 use hickory_server::store::in_memory::InMemoryZoneHandler;
 use hickory_server::zone_handler::{AxfrPolicy, Catalog, ZoneHandler, ZoneType};
@@ -135,6 +137,10 @@ fn ty_str(t: u16) -> String {
         T_AAAA => "AAAA".into(),
         T_DS => "DS".into(),
         T_ANY => "ANY".into(),
+        46 => "RRSIG".into(),
+        47 => "NSEC".into(),
+        48 => "DNSKEY".into(),
+        50 => "NSEC3".into(),
         t => format!("TYPE{t}"),
     }
 }
@@ -258,6 +264,8 @@ fn from_rdata(d: &RData) -> Rd {
             Rd::Id(s.trim_start_matches('t').parse().unwrap_or(250))
         }
         RData::DNSSEC(DNSSECRData::DS(ds)) => Rd::Id(ds.key_tag() as u8),
+        RData::DNSSEC(DNSSECRData::RRSIG(sig)) => Rd::Id(u16::from(sig.input().type_covered) as u8),
+        RData::DNSSEC(DNSSECRData::NSEC(_)) | RData::DNSSEC(DNSSECRData::NSEC3(_)) => Rd::Id(0),
         RData::NS(n) => Rd::Nm(from_name(&n.0)),
         RData::CNAME(n) => Rd::Nm(from_name(&n.0)),
         RData::MX(m) => Rd::Nm(from_name(&m.exchange)),
@@ -275,9 +283,25 @@ struct Built {
     rejected: usize,
 }
 
-fn build(rt: &tokio::runtime::Runtime, origin: &Nm, recs: &[Rec]) -> Built {
+const T_RRSIG: u16 = 46;
+const T_NSEC: u16 = 47;
+const T_NSEC3: u16 = 50;
+
+fn is_dnssec_type(t: u16) -> bool {
+    matches!(t, 46 | 47 | 48 | 50 | 51)
+}
+
+/// `sign`: None = unsigned zone; Some(false) = signed with NSEC; Some(true) = signed with NSEC3
+fn build(rt: &tokio::runtime::Runtime, origin: &Nm, recs: &[Rec], sign: Option<bool>) -> Built {
     let oname = to_name(origin);
-    let mut h = InMemoryZoneHandler::<hickory_net::runtime::TokioRuntimeProvider>::empty(oname.clone(), ZoneType::Primary, AxfrPolicy::Deny, None);
+    let kind = sign.map(|nsec3| {
+        if nsec3 {
+            NxProofKind::Nsec3 { algorithm: Nsec3HashAlgorithm::SHA1, salt: Arc::new([]), iterations: 0, opt_out: false }
+        } else {
+            NxProofKind::Nsec
+        }
+    });
+    let mut h = InMemoryZoneHandler::<hickory_net::runtime::TokioRuntimeProvider>::empty(oname.clone(), ZoneType::Primary, AxfrPolicy::Deny, kind);
     let mut rejected = 0;
     for (n, t, d) in recs {
         let Some(rd) = to_rdata(*t, d, origin) else {
@@ -288,11 +312,23 @@ fn build(rt: &tokio::runtime::Runtime, origin: &Nm, recs: &[Rec]) -> Built {
             rejected += 1;
         }
     }
-    // effective zone contents, in the store's own (BTreeMap) order
+    if sign.is_some() {
+        let key = Ed25519SigningKey::from_pkcs8(&Ed25519SigningKey::generate_pkcs8().expect("keygen")).expect("key");
+        h.add_zone_signing_key_mut(DnssecSigner::new(
+            DNSKEY::from_key(&key.to_public_key().expect("public key")),
+            Box::new(key),
+            oname.clone(),
+            std::time::Duration::from_secs(3600),
+        ))
+        .expect("add key");
+        h.secure_zone_mut().expect("sign");
+    }
+    // effective zone contents, in the store's own (BTreeMap) order (without the DNSSEC bookkeeping types)
     let zone: Vec<RrSet> = rt.block_on(async {
         h.records()
             .await
             .iter()
+            .filter(|(k, _)| !is_dnssec_type(u16::from(k.record_type)))
             .map(|(k, set)| RrSet {
                 name: from_name(&Name::from(&k.name)),
                 ty: u16::from(k.record_type),
@@ -397,6 +433,8 @@ struct Expect {
     ans: Vec<Rr>,
     any: bool,
     auth: Auth,
+    /// some name on the way was answered from a wildcard (needs a denial proof under DNSSEC)
+    wild: bool,
 }
 
 /// closest encloser: the longest existing proper ancestor (the apex always exists)
@@ -427,36 +465,38 @@ fn rfc_answer(z: &[RrSet], origin: &[u8], q: &[u8], t: u16) -> Option<Expect> {
     let mut acc: Vec<Rr> = vec![];
     let mut seen: Vec<Nm> = vec![q.to_vec()];
     let mut cur: Nm = q.to_vec();
+    let mut wild = false;
     loop {
         // step 3b: delegation
         if let Some(cut) = cuts_on_path(z, origin, &cur, t).first() {
-            return Some(Expect { rcode: 0, ans: acc, any: false, auth: Auth::Referral(cut.clone()) });
+            return Some(Expect { rcode: 0, ans: acc, any: false, auth: Auth::Referral(cut.clone()), wild });
         }
         // step 3a / 3c: the node, or the wildcard at the closest encloser
         let src: Nm = if has_data(z, &cur) {
             cur.clone()
         } else if exists(z, &cur) {
-            return Some(Expect { rcode: 0, ans: acc, any: false, auth: Auth::Soa }); // empty non-terminal
+            return Some(Expect { rcode: 0, ans: acc, any: false, auth: Auth::Soa, wild }); // empty non-terminal
         } else {
             let mut w = vec![L_STAR];
             w.extend(closest_encloser(z, origin, &cur));
             if has_data(z, &w) {
+                wild = true;
                 w
             } else {
-                return Some(Expect { rcode: 3, ans: acc, any: false, auth: Auth::Soa });
+                return Some(Expect { rcode: 3, ans: acc, any: false, auth: Auth::Soa, wild });
             }
         };
         if t == T_ANY {
             let all: Vec<Rr> = z.iter().filter(|s| s.name == src).flat_map(|s| rrs_of(&cur, s)).collect();
             acc.extend(all);
-            return Some(Expect { rcode: 0, ans: acc, any: true, auth: Auth::Free });
+            return Some(Expect { rcode: 0, ans: acc, any: true, auth: Auth::Free, wild });
         }
         if t != T_CNAME {
             if let Some(c) = rrset(z, &src, T_CNAME) {
                 acc.extend(rrs_of(&cur, c));
-                let Some(Rd::Nm(target)) = c.data.first() else { return Some(Expect { rcode: 0, ans: acc, any: false, auth: Auth::Free }) };
+                let Some(Rd::Nm(target)) = c.data.first() else { return Some(Expect { rcode: 0, ans: acc, any: false, auth: Auth::Free, wild }) };
                 if !is_under(target, origin) || seen.contains(target) {
-                    return Some(Expect { rcode: 0, ans: acc, any: false, auth: Auth::Free });
+                    return Some(Expect { rcode: 0, ans: acc, any: false, auth: Auth::Free, wild });
                 }
                 seen.push(target.clone());
                 cur = target.clone();
@@ -466,9 +506,9 @@ fn rfc_answer(z: &[RrSet], origin: &[u8], q: &[u8], t: u16) -> Option<Expect> {
         return Some(match rrset(z, &src, t) {
             Some(s) => {
                 acc.extend(rrs_of(&cur, s));
-                Expect { rcode: 0, ans: acc, any: false, auth: Auth::Free }
+                Expect { rcode: 0, ans: acc, any: false, auth: Auth::Free, wild }
             }
-            None => Expect { rcode: 0, ans: acc, any: false, auth: Auth::Soa },
+            None => Expect { rcode: 0, ans: acc, any: false, auth: Auth::Soa, wild },
         });
     }
 }
@@ -511,6 +551,34 @@ fn judge(z: &[RrSet], origin: &[u8], e: &Option<Expect>, o: &Obs) -> Option<Stri
         return Some("AA clear on an answer from the zone's own data".into());
     }
     None
+}
+
+/// the DNSSEC sentence of the statement, structurally, on a reply to a DO query over a signed zone:
+/// every authoritative RRset in answer/authority carries an RRSIG (same section, same owner, covering its
+/// type); negative and wildcard-synthesised answers carry an NSEC/NSEC3 record
+fn dnssec_judge(z: &[RrSet], origin: &[u8], e: &Option<Expect>, o: &Obs) -> Option<String> {
+    let e = e.as_ref()?;
+    for (sec_name, sec) in [("answer", &o.ans), ("authority", &o.auth)] {
+        let keys: BTreeSet<(Nm, u16)> = sec.iter().filter(|r| r.1 != T_RRSIG).map(|r| (r.0.clone(), r.1)).collect();
+        for (n, t) in keys {
+            // the NS set of a delegation is not authoritative data of this zone: unsigned
+            if t == T_NS && n != origin && rrset(z, &n, T_NS).is_some() {
+                continue;
+            }
+            if !sec.iter().any(|r| r.0 == n && r.1 == T_RRSIG && r.2 == Rd::Id(t as u8)) {
+                return Some(format!("{sec_name}: RRset {} {} without RRSIG", name_str(&n), ty_str(t)));
+            }
+        }
+    }
+    if (e.auth == Auth::Soa || e.wild) && !o.auth.iter().any(|r| r.1 == T_NSEC || r.1 == T_NSEC3) {
+        return Some(format!("{} answer without NSEC/NSEC3 in authority", if e.wild { "wildcard" } else { "negative" }));
+    }
+    None
+}
+
+fn strip_dnssec(o: &Obs) -> Obs {
+    let f = |s: &Vec<Rr>| s.iter().filter(|r| !is_dnssec_type(r.1)).cloned().collect::<Vec<_>>();
+    Obs { rcode: o.rcode, aa: o.aa, ans: f(&o.ans), auth: f(&o.auth), add: f(&o.add) }
 }
 
 /// cuts on the way from the apex down to `q`, top first; for DS the cut at the name itself does not count
@@ -1031,16 +1099,27 @@ thread_local! {
 fn case(rt: &tokio::runtime::Runtime, seed: u64, index: u64, verbose: bool) -> CaseOut {
     let mut r = Rng::for_case(seed, index);
     let fixed = corpus();
+    // every sixth generated zone is signed (alternating NSEC / NSEC3) and queried with DO: these cases are
+    // judged by the reference and the structural DNSSEC oracle only (not modelled in Coq)
+    let signed: Option<bool> = if (index as usize) >= fixed.len() && index % 6 == 5 { Some(index % 12 == 11) } else { None };
     let (g, b, qs) = if (index as usize) < fixed.len() {
         let f = &fixed[index as usize];
         let g = Gen { origin: f.origin.clone(), recs: f.recs.clone(), kind: f.kind };
-        let b = build(rt, &g.origin, &g.recs);
+        let b = build(rt, &g.origin, &g.recs, None);
         let qs = f.queries.iter().map(|(n, t)| Query { name: n.clone(), ty: *t, dnssec_ok: false, upper: false }).collect();
         (g, b, qs)
     } else {
         let g = gen_zone(&mut r);
-        let b = build(rt, &g.origin, &g.recs);
-        let qs = gen_queries(&mut r, &g.origin, &b.zone, NQ);
+        let b = build(rt, &g.origin, &g.recs, signed);
+        let mut qs = gen_queries(&mut r, &g.origin, &b.zone, NQ);
+        if signed.is_some() {
+            for q in qs.iter_mut() {
+                q.dnssec_ok = true;
+                if q.ty == T_ANY {
+                    q.ty = T_A;
+                }
+            }
+        }
         (g, b, qs)
     };
     let zone_ok = wf(&b.zone, &g.origin);
@@ -1052,14 +1131,24 @@ fn case(rt: &tokio::runtime::Runtime, seed: u64, index: u64, verbose: bool) -> C
         let (obs, verdict) = match drive(rt, &b.ctx, &bytes) {
             Ok(o) => {
                 let e = rfc_answer(&b.zone, &g.origin, &q.name, q.ty);
-                let v = if zone_ok { judge(&b.zone, &g.origin, &e, &o) } else { None };
+                let v = if !zone_ok {
+                    None
+                } else if signed.is_some() {
+                    if known_class(&b.zone, &g.origin, &q.name, q.ty) != 0 {
+                        None
+                    } else {
+                        judge(&b.zone, &g.origin, &e, &strip_dnssec(&o)).or_else(|| dnssec_judge(&b.zone, &g.origin, &e, &o))
+                    }
+                } else {
+                    judge(&b.zone, &g.origin, &e, &o)
+                };
                 (o, v)
             }
             Err(e) => (Obs { rcode: 99, aa: false, ans: vec![], auth: vec![], add: vec![] }, Some(format!("no single decodable reply: {e}"))),
         };
         let k = if zone_ok { known_class(&b.zone, &g.origin, &q.name, q.ty) } else { 0 };
         let qd = format!("{} {}{}{}", name_str(&q.name), ty_str(q.ty), if q.dnssec_ok { " +do" } else { "" }, if q.upper { " +upper" } else { "" });
-        if zone_ok {
+        if zone_ok && signed.is_none() {
             CLASS_STATS.with(|c| {
                 let mut c = c.borrow_mut();
                 c[k as usize].0 += 1;
@@ -1080,7 +1169,7 @@ fn case(rt: &tokio::runtime::Runtime, seed: u64, index: u64, verbose: bool) -> C
         qbytes.push(verdict.is_none() as u8);
         qbytes.push(k);
     }
-    let mut bytes = vec![];
+    let mut bytes = vec![signed.is_none() as u8];
     ser_name(&mut bytes, &g.origin);
     bytes.push(zone_ok as u8);
     ser_zone(&mut bytes, &b.zone);
@@ -1097,7 +1186,12 @@ fn case(rt: &tokio::runtime::Runtime, seed: u64, index: u64, verbose: bool) -> C
         (None, None)
     };
     let mut text = format!(
-        "zone {} [{}] wf={} rejected={} queries={}: {}",
+        "{}zone {} [{}] wf={} rejected={} queries={}: {}",
+        match signed {
+            Some(false) => "NSEC-signed ",
+            Some(true) => "NSEC3-signed ",
+            None => "",
+        },
         name_str(&g.origin),
         zone_str(&b.zone),
         zone_ok,
@@ -1116,7 +1210,12 @@ fn case(rt: &tokio::runtime::Runtime, seed: u64, index: u64, verbose: bool) -> C
         text,
         key,
         nontrivial: b.zone.len() >= 3,
-        kind: if zone_ok { g.kind.to_string() } else { "outside-statement-zone".into() },
+        kind: match (zone_ok, signed) {
+            (false, _) => "outside-statement-zone".into(),
+            (true, Some(false)) => "signed-nsec".into(),
+            (true, Some(true)) => "signed-nsec3".into(),
+            (true, None) => g.kind.to_string(),
+        },
         oracle_fail,
         known,
     }
@@ -1148,7 +1247,7 @@ fn main() {
         "C10",
         &args,
         &cases,
-        "one case = one generated zone (apex SOA/NS + 1..6 features: hosts, wildcards at several depths, CNAMEs/chains/loops/long chains, delegations with/without glue/DS/occluded data/nested cuts, deep names creating empty non-terminals, random records) loaded into a real InMemoryZoneHandler, and 16 queries over names in and around the zone x qtypes {A,AAAA,MX,NS,CNAME,SOA,DS,TXT,ANY}, some with DO / upper-case. Non-trivial = zone has at least 3 RRsets; distinct by (zone, queries).",
+        "one case = one generated zone (apex SOA/NS + 1..6 features: hosts, wildcards at several depths, CNAMEs/chains/loops/long chains, delegations with/without glue/DS/occluded data/nested cuts, deep names creating empty non-terminals, random records) loaded into a real InMemoryZoneHandler, and 16 queries over names in and around the zone x qtypes {A,AAAA,MX,NS,CNAME,SOA,DS,TXT,ANY}, some with DO / upper-case; every sixth generated zone is signed (NSEC / NSEC3 alternating) and queried with DO (reference + structural DNSSEC oracle only). Non-trivial = zone has at least 3 RRsets; distinct by (zone, queries).",
         serde_json::json!({
             "queries_per_case": NQ,
             "queries_by_class_[in_class,rejected_by_reference]": CLASS_STATS.with(|c| {
